@@ -179,6 +179,38 @@ Proof.
   - intros IS M. unfold Inv in *. cbn [s_tr s_pool s_ntx]. apply I; assumption.
 Qed.
 
+Lemma save_kids_keepers_mid : forall must c t vals kt ks s, nested_ok c s ->
+  mid must s (save_kids_keepers c t vals kt ks s).
+Proof.
+  intros must c t vals kt ks s NO. unfold save_kids_keepers. destruct vals as [|v vr]; [apply mid_refl|].
+  set (cc := assoc_cx c t TKids false).
+  set (s0 := mkS (s_k s) (s_err s) (s_tr s) (v :: vr) [] 0 (s_pool s) (s_ntx s) false (s_tbl s) (s_snap s)).
+  assert (B : begin_tx cc s0 = s0).
+  { unfold begin_tx. change (c_skipdef cc) with (c_skipdef c). change (s_pool s0) with (s_pool s).
+    destruct NO as [NP|SD].
+    - destruct (negb (c_skipdef c) && is_nil (s_err s0)); [|reflexivity].
+      destruct (Z.eqb_spec (s_pool s) 0); [contradiction|reflexivity].
+    - rewrite SD. reflexivity. }
+  assert (L : mid must s0 (kids_create cc kt ks s0) /\ s_started (kids_create cc kt ks s0) = false).
+  { unfold kids_create. rewrite B.
+    set (s1 := hooks_phase cc PBeforeCreate s0).
+    assert (M1 : mid must s0 s1) by apply hooks_phase_mid.
+    assert (NO1 : nested_ok cc s1).
+    { destruct M1 as [(P1 & _) _]. unfold nested_ok in *. rewrite P1. exact NO. }
+    set (s2 := save_keepers cc kt ks s1).
+    assert (M2 : mid must s1 s2).
+    { subst s2. unfold save_keepers. destruct (is_nil (s_err s1)); [apply save_assoc_mid; exact NO1 | apply mid_refl]. }
+    set (s3 := hooks_phase cc PAfterCreate (stmt_create cc s2)).
+    assert (M3 : mid must s0 s3).
+    { eapply mid_trans; [exact M1|]. eapply mid_trans; [exact M2|].
+      eapply mid_trans; [apply stmt_create_mid | apply hooks_phase_mid]. }
+    assert (S3 : s_started s3 = false) by (destruct M3 as [(_ & _ & St & _) _]; exact St).
+    unfold commit_or_rollback. rewrite S3, andb_false_r. split; assumption. }
+  destruct L as [[(P & N & St & Sn) I] _]. split.
+  - cbn [s_pool s_ntx s_started s_snap]. repeat split; assumption.
+  - intros IS M. unfold Inv in *. cbn [s_tr s_pool s_ntx]. apply I; assumption.
+Qed.
+
 Lemma nested_delete_mid : forall must c t tb s, nested_ok c s -> mid must s (nested_delete c t tb s).
 Proof.
   intros must c t tb s NO. unfold nested_delete.
@@ -232,7 +264,9 @@ Proof.
     try apply stmt_create_mid; try apply stmt_update_mid; try apply stmt_delete_mid; try apply stmt_query_mid.
   - unfold save_before_assoc. destruct (is_nil (s_err s)); [apply save_assoc_mid; exact NO | apply mid_refl].
   - unfold save_after_assoc. destruct (is_nil (s_err s)); [|apply mid_refl].
-    pose proof (save_assoc_mid must c (snd (fst (a_tys a))) TKids false (a_kids a) s NO) as A.
+    assert (A : mid must s (if is_nil (a_keepers a) then save_assoc c (snd (fst (a_tys a))) TKids false (a_kids a) s
+                            else save_kids_keepers c (snd (fst (a_tys a))) (a_kids a) (a_keeper_ty a) (a_keepers a) s)).
+    { destruct (is_nil (a_keepers a)); [apply save_assoc_mid | apply save_kids_keepers_mid]; exact NO. }
     eapply mid_trans; [exact A|]. apply save_assoc_mid.
     destruct A as [(P & _) _]. unfold nested_ok in *. rewrite P. exact NO.
   - unfold delete_before_assoc. destruct (is_nil (s_err s) && negb (is_nil (s_recs s))); [|apply mid_refl].
